@@ -159,6 +159,30 @@ CHECKS = {
          'white space inside multi-character tokens or between a function name and "(" is outside the property; 1 known finding '
          '(content ending in a backslash followed later by another quote).',
     technique='Coq proof (induction on digit strings / token lists, finite slot-pattern sweep by vm_compute on the generated tables) + exhaustive short-string lexer correspondence'),
+ 'C09': dict(
+    text='Coq theorems: the real LR driver over the generated tables, with the real grammar actions and host callbacks, runs '
+         'every well-parenthesised expression (numbers, variables, cells, ranges, calls with any arguments, operators; any '
+         'size and nesting) to its post-order evaluation; names of the class good_name lex as one VARIABLE token and evaluate '
+         'to the registered value, unknown ones to #NAME?; a custom function wins over a built-in, is called once per call '
+         'site with the evaluated arguments in order; every documented name (generated from SUPPORTED_FORMULAS.md) is in the '
+         'generated registry; an unknown name at any position never yields a value. Tied to the code by names x values, '
+         'unknown names at random positions and inside error-trapping built-ins, call logs, shadowed built-ins.',
+    design='7/C09',
+    note='arbitrary Python objects as variable values are checked by the oracle (identity), the model carries the spreadsheet '
+         'value types; 1 known finding (identifier-shaped names that do not lex as one VARIABLE token: x1y, _1, non-ASCII).',
+    technique='Coq proof (LR certificate by vm_compute + nested structural induction over expressions on the generated tables; lexer case analysis) + generated registry + correspondence'),
+ 'C10': dict(
+    text='Coq theorems: for every well-parenthesised expression over numbers, variables, cells, ranges, calls, operators and '
+         'parentheses the real LR driver on the generated tables emits exactly the events of the post-order evaluation (one per '
+         'reference, left to right, arguments before their call); a cell event carries the upper-cased label, zero-based '
+         'row/column and markers for every label of the label grammar, and the label is the label of those coordinates; a range '
+         'event carries the min/max corners in every corner order; the setter keeps the last value other than None. Tied to '
+         'the code by random reference-mixing formulas on random hosts, a label sweep, rectangles in four corner orders and all '
+         'short setter scripts, against the model and an oracle computed from the generating tree.',
+    design='7/C10',
+    note='listeners are modelled as scripts (values handed to the setter, in order), one listener per event kind; delivery to '
+         'several listeners is C20.',
+    technique='Coq proof (LR certificate + nested structural induction with event traces; label lemmas of C19) + generated tables + correspondence'),
 }
 PENDING = {}
 def main():
